@@ -9,6 +9,10 @@ Notation length := List.length (only parsing).
 Record dcfg := mkCfg { c_max_seq : N; c_depth : nat }.
 Definition cfg_default : dcfg := mkCfg 1000000000 64.
 
+(* slice.get(i) for an index read from the input *)
+Definition nth_N {A} (l : list A) (i : N) : option A :=
+  if i <? N.of_nat (length l) then nth_error l (N.to_nat i) else None.
+
 (* AllowedDepth::dec *)
 Definition dec_depth (d : nat) : RM nat :=
   match d with O => rfail (Err EData) | S d' => sret d' end.
@@ -92,7 +96,7 @@ Definition decimal_to_string (m : Z) (s : N) : bytes :=
 (* std::io::Take over the reader for BigDecimal: a window of `limit` bytes *)
 Definition take_varint (limit : N) : RM (Z * N) := fun st =>
   (* VarIntReader::read_varint::<i64> through std::io::Read on the Take *)
-  let avail := firstn (N.to_nat limit) (rd_inp st) in
+  let avail := firstn (N.to_nat (N.min limit (blen (rd_inp st)))) (rd_inp st) in
   let g := gather avail in
   let st' := consume (blen g) st in
   match decode_i64 g with
@@ -100,7 +104,7 @@ Definition take_varint (limit : N) : RM (Z * N) := fun st =>
   | None => (Err EIo, st')
   end.
 Definition take_exact (limit n : N) : RM (bytes * N) := fun st =>
-  let avail := firstn (N.to_nat limit) (rd_inp st) in
+  let avail := firstn (N.to_nat (N.min limit (blen (rd_inp st)))) (rd_inp st) in
   if blen avail <? n then (Err EIo, consume (blen avail) st)
   else (Ok (firstn (N.to_nat n) avail, limit - n), consume n st).
 
@@ -273,7 +277,9 @@ Definition map_policy (t : dtarget) : mappolicy :=
   | _ => MPGeneric TAny TAny false
   end.
 
-Fixpoint de (fuel : nat) (n : fnode) (depth : nat) (favor : bool) (t : dtarget) {struct fuel} : RM dval :=
+(* force_any: the union arm of deserialize_any calls deserialize_any on the variant (whatever hint
+   method the target had called on the union node) *)
+Fixpoint de (fuel : nat) (n : fnode) (depth : nat) (favor : bool) (force_any : bool) (t : dtarget) {struct fuel} : RM dval :=
   match fuel with
   | O => rfail OutOfFuel
   | S f =>
@@ -296,19 +302,19 @@ Fixpoint de (fuel : nat) (n : fnode) (depth : nat) (favor : bool) (t : dtarget) 
           map_visit f (MSMap values d' false blk0) t
       | FUnion variants =>
           do* disc <- read_usize;
-          match nth_error variants (N.to_nat disc) with
+          match nth_N variants disc with
           | None => rfail (Err EData)
           | Some k =>
               do* d' <- dec_depth depth;
               do* n' <- node_at k;
-              de f n' d' false t
+              de f n' d' false true t
           end
       | FRecord _ fields =>
           do* d' <- dec_depth depth;
           map_visit f (MSRecord fields d') t
       | FEnum _ symbols =>
           do* disc <- read_usize;
-          match nth_error symbols (N.to_nat disc) with
+          match nth_N symbols disc with
           | None => rfail (Err EData)
           | Some s => sret (leaf t (DStr s))
           end
@@ -334,6 +340,7 @@ Fixpoint de (fuel : nat) (n : fnode) (depth : nat) (favor : bool) (t : dtarget) 
                  if (z <? 0)%Z then rfail (Err EData) else sret (leaf t (DInt false W64 z))
       | _ => any
       end in
+    if force_any then any else
     match t with
     | TAny | TUnitStruct _ | TMap _ _ | TStruct _ _ | TVUnit | TVNewtype _ => any
     | THint h =>
@@ -372,13 +379,13 @@ Fixpoint de (fuel : nat) (n : fnode) (depth : nat) (favor : bool) (t : dtarget) 
             end
         | HIdentifier => identifier
         end
-    | TNewtypeStruct _ t' => do* d <- de f n depth favor t'; sret (DNewtype d)
+    | TNewtypeStruct _ t' => do* d <- de f n depth favor false t'; sret (DNewtype d)
     | TOption t' =>
         match n with
         | FNull => sret DNone
         | FUnion variants =>
             do* disc <- read_usize;
-            match nth_error variants (N.to_nat disc) with
+            match nth_N variants disc with
             | None => rfail (Err EData)
             | Some k =>
                 do* vn <- node_at k;
@@ -392,11 +399,11 @@ Fixpoint de (fuel : nat) (n : fnode) (depth : nat) (favor : bool) (t : dtarget) 
                       | None => false
                       end in
                     do* d' <- dec_depth depth;
-                    do* d <- de f vn d' (negb other_is_null) t';
+                    do* d <- de f vn d' (negb other_is_null) false t';
                     sret (DSome d)
                 end
             end
-        | _ => do* d <- de f n depth favor t'; sret (DSome d)
+        | _ => do* d <- de f n depth favor false t'; sret (DSome d)
         end
     | TSeq _ =>
         match n with
@@ -417,13 +424,13 @@ Fixpoint de (fuel : nat) (n : fnode) (depth : nat) (favor : bool) (t : dtarget) 
         match n with
         | FUnion uvariants =>
             do* disc <- read_usize;
-            match nth_error uvariants (N.to_nat disc) with
+            match nth_N uvariants disc with
             | None => rfail (Err EData)
             | Some k => do* d' <- dec_depth depth; do* vn <- node_at k; type_name_access vn d'
             end
         | FInt | FLong | FBytes | FString | FEnum _ _ | FFixed _ _ =>
             do* d' <- dec_depth depth;
-            do* key <- de f n d' false (THint HIdentifier);
+            do* key <- de f n d' false false (THint HIdentifier);
             let idx :=
               match key with
               | DInt false W64 z =>
@@ -483,14 +490,14 @@ with seq_array_loop (fuel : nat) (items : nat) (depth : nat) (ignored : bool) (p
           do* hm <- has_more f cfg ignored b;
           if fst hm then
             do* n' <- node_at items;
-            do* d <- de f n' depth false t1;
+            do* d <- de f n' depth false false t1;
             seq_array_loop f items depth ignored (PFixed ts) (snd hm) (d :: acc)
           else rfail (Err EData)                 (* invalid_length *)
       | PRepeat t1 =>
           do* hm <- has_more f cfg ignored b;
           if fst hm then
             do* n' <- node_at items;
-            do* d <- de f n' depth false t1;
+            do* d <- de f n' depth false false t1;
             seq_array_loop f items depth ignored pol (snd hm) (d :: acc)
           else sret (rev acc, snd hm)
       end
@@ -574,14 +581,14 @@ with map_next_value (fuel : nat) (src : mapsrc) (tv : dtarget) {struct fuel} : R
       match src with
       | MSMap values depth ignored b =>
           do* n' <- node_at values;
-          do* d <- de f n' depth false tv;
+          do* d <- de f n' depth false false tv;
           sret (d, src)
       | MSRecord fields depth =>
           match fields with
           | [] => rfail (Panic PNextValueWithoutKey)
           | (_, k) :: rest =>
               do* n' <- node_at k;
-              do* d <- de f n' depth false tv;
+              do* d <- de f n' depth false false tv;
               sret (d, MSRecord rest depth)
           end
       | MSDuration vals idx =>
@@ -657,13 +664,13 @@ with enum_payload (fuel : nat) (variants : list (bytes * dtarget)) (vname : byte
           | None => rfail (Panic PIndex)
           | Some (nm, payload) =>
               match payload with
-              | TVUnit => do* _ <- de f vn depth false TIgnored; sret (DEnum nm DUnit)
-              | TVNewtype t' => do* d <- de f vn depth false t'; sret (DEnum nm d)
+              | TVUnit => do* _ <- de f vn depth false false TIgnored; sret (DEnum nm DUnit)
+              | TVNewtype t' => do* d <- de f vn depth false false t'; sret (DEnum nm d)
               | TTuple ts =>
-                  do* d <- de f vn depth false (TTuple ts);
+                  do* d <- de f vn depth false false (TTuple ts);
                   match d with DSeq _ => sret (DEnum nm d) | _ => rfail (Err EData) end
               | TStruct sn fs =>
-                  do* d <- de f vn depth false (TStruct sn fs);
+                  do* d <- de f vn depth false false (TStruct sn fs);
                   match d with DStruct _ => sret (DEnum nm d) | _ => rfail (Err EData) end
               | _ => rfail Unmodelled
               end
@@ -679,7 +686,7 @@ Definition de_datum (fuel : nat) (Sc : fschema) (cfg : dcfg) (t : dtarget) (rs :
   match fnode_at Sc 0 with
   | None => Panic PIndex
   | Some root =>
-      match de Sc cfg fuel root (c_depth cfg) false t rs with
+      match de Sc cfg fuel root (c_depth cfg) false false t rs with
       | (Ok d, st) => Ok (d, blen (rd_inp st))
       | (Err e, _) => Err e
       | (Panic p, _) => Panic p
